@@ -56,7 +56,7 @@ CLAIMS = {
           "(R2) pack_all_loose removes already-indexed keys (both lookup strategies) before any pack write; (R3) append-handle typestate for every flag combination: after seek() on an 'ab' pack handle no tell()/write() before truncate(); "
           "(R4) direct-to-pack loop: exactly one returned key per stream, known content never staged, new keys staged and remembered, and the known-keys set is accumulated over all index pages; (R5) unique hashkey column, INSERT OR IGNORE, final truncate inside the lock; "
           "(R6) import with different hash algorithms runs every add call with no_holes and read-twice; (R7) no_holes / no_holes_read_twice forwarded unchanged by every wrapper; (R1b) the checksum that decides whether an existing loose copy is intact is recomputed from the file on every call (verifier found by def-use; no caching decorator on its call chain). Does NOT decide object counts as values over histories."),
-    note="Trusted: O_APPEND semantics, SQLite unique index.",
+    note="Trusted: O_APPEND semantics, SQLite unique index. Also hosts the rule module of C16 (whether content is already indexed is decided by the bulk lookup strategies).",
     technique="static typestate (append handle, decision tree, per-iteration bookkeeping) + dominance + constant propagation", ref="5/C09"),
  'C13': dict(
     text=("Decides: (R1) closed-world ownership: pack files are opened for writing only by lock_pack in mode 'ab' and written only through that handle; (R4) only repack_pack unlinks/links pack files; "
